@@ -875,6 +875,15 @@ func (as *AbacoSource) Sample() error {
 		as.distributePackets(results.allpackets, now)
 	}
 
+	// No data yet (hardware not sending): the run cannot start. Release the ring buffers / UDP sockets that were
+	// just opened, or the next Start would find its sockets still bound ("address already in use").
+	if as.nchan == 0 {
+		for _, pp := range as.producers {
+			pp.stop()
+		}
+		return fmt.Errorf("no Abaco data packets arrived while sampling")
+	}
+
 	// Verify that no channel # appears in 2 groups.
 	known := make(map[int]bool)
 	for _, g := range as.groups {
